@@ -37,10 +37,32 @@ func TestC19HardforkRestarts(t *testing.T) {
 			return config.HardforkConfig{V2: hs[0], V3: hs[1], V4: hs[2], V5: hs[3]}
 		}
 		h0 := drawCfg("h0-", 6)
+		ascending := true
+		if rapid.IntRange(0, 3).Draw(t, "unordered") == 0 {
+			// a configuration whose heights are not in the order of the versions: whatever the very first start makes
+			// of it (refuse it, or live with it), the chain made under it must be startable again
+			hs := rapid.Permutation([]uint64{h0.V2, h0.V3, h0.V4, h0.V5}).Draw(t, "perm")
+			h0 = config.HardforkConfig{V2: hs[0], V3: hs[1], V4: hs[2], V5: hs[3]}
+			ascending = h0.V2 <= h0.V3 && h0.V3 <= h0.V4 && h0.V4 <= h0.V5
+		}
 		opts := vnode.WorldOpts{Consensus: "sbp", Public: false, NUsers: 1, NBPs: 1, Hardfork: h0, Magic: "verif.c19r"}
 		spec := vnode.NewSpec(opts)
-		N, err := vnode.Open(spec, "")
+		var N *vnode.Node
+		var err error
+		func() {
+			// a node that refuses its configuration ends its start with a panic ("check the hardfork compatibility")
+			defer func() {
+				if p := recover(); p != nil {
+					err = fmt.Errorf("start refused: %v", p)
+				}
+			}()
+			N, err = vnode.Open(spec, "")
+		}()
 		if err != nil {
+			if !ascending {
+				rec.Case("first-start-refused", fmt.Sprintf("%+v", h0), false, nil)
+				return // refused at the first start: nothing was made under it
+			}
 			t.Fatal(err)
 		}
 		dir := N.Dir
